@@ -11,6 +11,7 @@ package memefish
 // @ spec pieceOK(s, r, k, limit) = r[k] != nil && 0 <= r[k].Pos && r[k].Pos <= r[k].End && r[k].End < limit && sameText(r[k].Statement, s, r[k].Pos, r[k].End)
 
 // @ func memefish.SplitRawStatements
+// @   replay s
 // @   props C12 C03
 // @   ensures[C03,C12] typed: result1 == nil || typeIs(result1, "*memefish.Error")
 // @   ensures[C12] fails: result1 != nil ==> isNil(result0)
